@@ -557,3 +557,153 @@ Proof.
 Qed.
 Lemma PPRIME_ok : z256_ok SM2_Z256_P_PRIME. Proof. split; [reflexivity|]. repeat constructor; unfold limb_ok; cbn; lia. Qed.
 Lemma NPRIME_ok : z256_ok SM2_Z256_N_PRIME. Proof. split; [reflexivity|]. repeat constructor; unfold limb_ok; cbn; lia. Qed.
+
+(* ---------------- sm2_z256_copy_conditional ---------------- *)
+Lemma land_ones64 : forall x, limb_ok x -> Z.land x ones64 = x.
+Proof. intros x H. change ones64 with (Z.ones 64). rewrite Z.land_ones by lia. apply Z.mod_small. exact H. Qed.
+Theorem copy_conditional_spec : forall dst src move, z256_ok dst -> z256_ok src -> move = 0 \/ move = 1 ->
+  z256_copy_conditional dst src move = if move =? 1 then src else dst.
+Proof.
+  intros dst src move Hd Hs Hm.
+  destruct (z256_ok_inv dst Hd) as (d0 & d1 & d2 & d3 & -> & D0 & D1 & D2 & D3).
+  destruct (z256_ok_inv src Hs) as (s0 & s1 & s2 & s3 & -> & S0 & S1 & S2 & S3).
+  unfold z256_copy_conditional.
+  destruct Hm as [-> | ->].
+  - change (w64 (0 - 0)) with 0. change (not64 0) with ones64. cbn [Z.eqb].
+    rewrite !Z.land_0_r, !Z.lxor_0_l, !land_ones64 by auto. reflexivity.
+  - change (w64 (0 - 1)) with ones64. change (not64 ones64) with 0. cbn [Z.eqb Pos.eqb].
+    rewrite !Z.land_0_r, !Z.lxor_0_r, !land_ones64 by auto. reflexivity.
+Qed.
+
+(* ---------------- sm2_z256_from_bytes / to_bytes ---------------- *)
+Definition byte_ok (b : Z) : Prop := 0 <= b < 256.
+Lemma getu64_8 : forall b0 b1 b2 b3 b4 b5 b6 b7 r,
+  getu64 (b0 :: b1 :: b2 :: b3 :: b4 :: b5 :: b6 :: b7 :: r) =
+  ((((((b0 * 256 + b1) * 256 + b2) * 256 + b3) * 256 + b4) * 256 + b5) * 256 + b6) * 256 + b7.
+Proof. intros. unfold getu64. cbn [firstn fold_left]. ring. Qed.
+Lemma putu64_getu64 : forall b0 b1 b2 b3 b4 b5 b6 b7,
+  byte_ok b0 -> byte_ok b1 -> byte_ok b2 -> byte_ok b3 -> byte_ok b4 -> byte_ok b5 -> byte_ok b6 -> byte_ok b7 ->
+  let x := ((((((b0 * 256 + b1) * 256 + b2) * 256 + b3) * 256 + b4) * 256 + b5) * 256 + b6) * 256 + b7 in
+  limb_ok x /\ putu64 x = [b0; b1; b2; b3; b4; b5; b6; b7].
+Proof.
+  intros b0 b1 b2 b3 b4 b5 b6 b7 H0 H1 H2 H3 H4 H5 H6 H7. cbv zeta. unfold byte_ok, limb_ok in *.
+  set (x := ((((((b0 * 256 + b1) * 256 + b2) * 256 + b3) * 256 + b4) * 256 + b5) * 256 + b6) * 256 + b7).
+  split; [unfold x; lia|].
+  unfold putu64. cbn [map]. change 255 with (Z.ones 8).
+  rewrite !Z.land_ones by lia. rewrite !Z.shiftr_div_pow2 by lia.
+  change (2^(8*7)) with 72057594037927936. change (2^(8*6)) with 281474976710656.
+  change (2^(8*5)) with 1099511627776. change (2^(8*4)) with 4294967296.
+  change (2^(8*3)) with 16777216. change (2^(8*2)) with 65536. change (2^(8*1)) with 256.
+  change (2^(8*0)) with 1. change (2^8) with 256.
+  repeat f_equal; unfold x; lia.
+Qed.
+
+Theorem bytes_roundtrip : forall bs, length bs = 32%nat -> Forall byte_ok bs ->
+  z256_ok (z256_from_bytes bs) /\
+  z256_to_bytes (z256_from_bytes bs) = bs /\
+  val (z256_from_bytes bs) = fold_left (fun acc b => acc * 256 + b) bs 0.
+Proof.
+  intros bs L F.
+  do 32 (destruct bs as [|? bs]; [discriminate L|]). destruct bs; [|discriminate L]. clear L.
+  repeat match goal with H : Forall _ (_ :: _) |- _ => inversion H; clear H; subst end.
+  unfold z256_from_bytes. cbn [skipn]. rewrite !getu64_8.
+  match goal with |- context [z256_ok [?l0; ?l1; ?l2; ?l3]] =>
+    set (x0 := l0); set (x1 := l1); set (x2 := l2); set (x3 := l3) end.
+  assert (P3 := putu64_getu64 z z0 z1 z2 z3 z4 z5 z6 ltac:(assumption) ltac:(assumption) ltac:(assumption) ltac:(assumption) ltac:(assumption) ltac:(assumption) ltac:(assumption) ltac:(assumption)).
+  assert (P2 := putu64_getu64 z7 z8 z9 z10 z11 z12 z13 z14 ltac:(assumption) ltac:(assumption) ltac:(assumption) ltac:(assumption) ltac:(assumption) ltac:(assumption) ltac:(assumption) ltac:(assumption)).
+  assert (P1 := putu64_getu64 z15 z16 z17 z18 z19 z20 z21 z22 ltac:(assumption) ltac:(assumption) ltac:(assumption) ltac:(assumption) ltac:(assumption) ltac:(assumption) ltac:(assumption) ltac:(assumption)).
+  assert (P0 := putu64_getu64 z23 z24 z25 z26 z27 z28 z29 z30 ltac:(assumption) ltac:(assumption) ltac:(assumption) ltac:(assumption) ltac:(assumption) ltac:(assumption) ltac:(assumption) ltac:(assumption)).
+  cbv zeta in P0, P1, P2, P3. fold x3 in P3. fold x2 in P2. fold x1 in P1. fold x0 in P0.
+  destruct P0 as [O0 E0]. destruct P1 as [O1 E1]. destruct P2 as [O2 E2]. destruct P3 as [O3 E3].
+  split; [split; [reflexivity | repeat (constructor; [assumption|]); constructor]|]. split.
+  - unfold z256_to_bytes. rewrite E0, E1, E2, E3. reflexivity.
+  - cbn [val fold_left]. unfold x0, x1, x2, x3. ring.
+Qed.
+
+(* ---------------- right shifts across limbs: sm2_z256_rshift and the halving of modp_haf ---------------- *)
+Ltac Zify.zify_post_hook ::= idtac.
+Lemma shr_limb : forall lo m n, 0 < n < 64 -> limb_ok lo -> 0 <= m < 2^n ->
+  Z.lor (Z.shiftr lo n) (Z.shiftl m (64 - n)) = lo / 2^n + m * 2^(64 - n) /\
+  limb_ok (lo / 2^n + m * 2^(64 - n)).
+Proof.
+  intros lo m n Hn Hlo Hm. unfold limb_ok in *.
+  assert (Pn : 0 < 2^n) by (apply Z.pow_pos_nonneg; lia).
+  assert (Pc : 0 < 2^(64 - n)) by (apply Z.pow_pos_nonneg; lia).
+  assert (E64 : 2^64 = 2^(64 - n) * 2^n) by (rewrite <- Z.pow_add_r by lia; f_equal; lia).
+  assert (Lo : 0 <= lo / 2^n < 2^(64 - n)).
+  { split; [apply Z.div_pos; lia|]. apply Z.div_lt_upper_bound; [lia|]. rewrite Z.mul_comm, <- E64. lia. }
+  rewrite Z.shiftr_div_pow2 by lia. rewrite Z.lor_comm, lor_shl_add by lia. split; [ring|].
+  split; [nia|]. rewrite E64. nia.
+Qed.
+Lemma w64_shl : forall hi n, 0 < n < 64 -> 0 <= hi ->
+  w64 (Z.shiftl hi (64 - n)) = Z.shiftl (hi mod 2^n) (64 - n).
+Proof.
+  intros hi n Hn Hh. unfold w64. rewrite !Z.shiftl_mul_pow2 by lia.
+  assert (Pn : 0 < 2^n) by (apply Z.pow_pos_nonneg; lia).
+  assert (Pc : 0 < 2^(64 - n)) by (apply Z.pow_pos_nonneg; lia).
+  replace (2^64) with (2^n * 2^(64 - n)) by (rewrite <- Z.pow_add_r by lia; f_equal; lia).
+  rewrite Z.mul_mod_distr_r by lia. reflexivity.
+Qed.
+
+Theorem rshift_spec : forall a nbits, z256_ok a -> 0 <= nbits ->
+  z256_ok (z256_rshift a nbits) /\ val (z256_rshift a nbits) = val a / 2^(nbits mod 64).
+Proof.
+  intros a nbits Ha Hnb.
+  destruct (z256_ok_inv a Ha) as (a0 & a1 & a2 & a3 & -> & A0 & A1 & A2 & A3).
+  unfold z256_rshift. change 0x3f with (Z.ones 6). rewrite Z.land_ones by lia. change (2^6) with 64.
+  set (n := nbits mod 64). assert (Hn : 0 <= n < 64) by (unfold n; apply Z.mod_pos_bound; lia).
+  destruct (Z.eqb_spec n 0) as [->|Nz].
+  - split; [exact Ha|]. change (2^0) with 1. rewrite Z.div_1_r. reflexivity.
+  - assert (Hn' : 0 < n < 64) by lia.
+    assert (Pn : 0 < 2^n) by (apply Z.pow_pos_nonneg; lia).
+    unfold limb_ok in A0, A1, A2, A3.
+    rewrite !w64_shl by lia.
+    destruct (shr_limb a0 (a1 mod 2^n) n Hn' A0 ltac:(apply Z.mod_pos_bound; lia)) as [E0 O0].
+    destruct (shr_limb a1 (a2 mod 2^n) n Hn' A1 ltac:(apply Z.mod_pos_bound; lia)) as [E1 O1].
+    destruct (shr_limb a2 (a3 mod 2^n) n Hn' A2 ltac:(apply Z.mod_pos_bound; lia)) as [E2 O2].
+    rewrite E0, E1, E2. rewrite (Z.shiftr_div_pow2 a3) by lia.
+    assert (O3 : limb_ok (a3 / 2^n)).
+    { unfold limb_ok. split; [apply Z.div_pos; lia|]. apply Z.div_lt_upper_bound; [lia|]. nia. }
+    split; [split; [reflexivity | repeat (constructor; [assumption|]); constructor]|].
+    cbn [val]. apply Z.div_unique with (r := a0 mod 2^n); [left; apply Z.mod_pos_bound; lia|].
+    pose proof (Z.div_mod a0 (2^n) ltac:(lia)) as D0. pose proof (Z.div_mod a1 (2^n) ltac:(lia)) as D1.
+    pose proof (Z.div_mod a2 (2^n) ltac:(lia)) as D2. pose proof (Z.div_mod a3 (2^n) ltac:(lia)) as D3.
+    assert (E64 : 2^64 = 2^n * 2^(64 - n)) by (rewrite <- Z.pow_add_r by lia; f_equal; lia).
+    set (P := 2^n) in *. set (Q := 2^(64 - n)) in *.
+    set (q0 := a0 / P) in *. set (q1 := a1 / P) in *. set (q2 := a2 / P) in *. set (q3 := a3 / P) in *.
+    set (m0 := a0 mod P) in *. set (m1 := a1 mod P) in *. set (m2 := a2 mod P) in *. set (m3 := a3 mod P) in *.
+    rewrite D0 at 1. rewrite D1 at 1. rewrite D2 at 1. rewrite D3 at 1. rewrite E64. ring.
+Qed.
+
+(* the halving step of sm2_z256_modp_haf: ((c, r3, r2, r1, r0) as a 257-bit number) >> 1 *)
+Lemma haf_shift : forall r0 r1 r2 r3 c, limb_ok r0 -> limb_ok r1 -> limb_ok r2 -> limb_ok r3 -> c = 0 \/ c = 1 ->
+  let out := [ Z.lor (Z.shiftr r0 1) (w64 (Z.shiftl (Z.land r1 1) 63));
+               Z.lor (Z.shiftr r1 1) (w64 (Z.shiftl (Z.land r2 1) 63));
+               Z.lor (Z.shiftr r2 1) (w64 (Z.shiftl (Z.land r3 1) 63));
+               Z.lor (Z.shiftr r3 1) (w64 (Z.shiftl (Z.land c 1) 63)) ] in
+  z256_ok out /\ val out = (val [r0; r1; r2; r3] + c * 2^256) / 2.
+Proof.
+  intros r0 r1 r2 r3 c R0 R1 R2 R3 Hc out. unfold out.
+  assert (L1 : forall x, 0 <= x -> w64 (Z.shiftl (Z.land x 1) 63) = Z.shiftl (x mod 2^1) (64 - 1)).
+  { intros x Hx. change 1 with (Z.ones 1) at 1. rewrite Z.land_ones by lia. change (64 - 1) with 63.
+    unfold w64. rewrite Z.shiftl_mul_pow2 by lia. apply Z.mod_small.
+    pose proof (Z.mod_pos_bound x (2^1) ltac:(lia)). change (2^1) with 2 in *. lia. }
+  unfold limb_ok in *.
+  rewrite !L1 by lia.
+  assert (H1 : 0 < 1 < 64) by lia.
+  destruct (shr_limb r0 (r1 mod 2^1) 1 H1 R0 ltac:(apply Z.mod_pos_bound; lia)) as [E0 O0].
+  destruct (shr_limb r1 (r2 mod 2^1) 1 H1 R1 ltac:(apply Z.mod_pos_bound; lia)) as [E1 O1].
+  destruct (shr_limb r2 (r3 mod 2^1) 1 H1 R2 ltac:(apply Z.mod_pos_bound; lia)) as [E2 O2].
+  destruct (shr_limb r3 (c mod 2^1) 1 H1 R3 ltac:(apply Z.mod_pos_bound; lia)) as [E3 O3].
+  rewrite E0, E1, E2, E3.
+  split; [split; [reflexivity | repeat (constructor; [assumption|]); constructor]|].
+  cbn [val]. apply Z.div_unique with (r := r0 mod 2^1); [left; apply Z.mod_pos_bound; lia|].
+  pose proof (Z.div_mod r0 (2^1) ltac:(lia)) as D0. pose proof (Z.div_mod r1 (2^1) ltac:(lia)) as D1.
+  pose proof (Z.div_mod r2 (2^1) ltac:(lia)) as D2. pose proof (Z.div_mod r3 (2^1) ltac:(lia)) as D3.
+  assert (Dc : c mod 2^1 = c) by (destruct Hc as [-> | ->]; reflexivity).
+  rewrite Dc. change (64 - 1) with 63.
+  set (q0 := r0 / 2^1) in *. set (q1 := r1 / 2^1) in *. set (q2 := r2 / 2^1) in *. set (q3 := r3 / 2^1) in *.
+  set (m0 := r0 mod 2^1) in *. set (m1 := r1 mod 2^1) in *. set (m2 := r2 mod 2^1) in *. set (m3 := r3 mod 2^1) in *.
+  rewrite D0 at 1. rewrite D1 at 1. rewrite D2 at 1. rewrite D3 at 1.
+  change (2^1) with 2. change (2^64) with (2 * 2^63). change (2^256) with (2 * 2^63 * (2 * 2^63) * (2 * 2^63) * (2 * 2^63)). ring.
+Qed.
